@@ -15,7 +15,7 @@ pre = sys.argv[1] if len(sys.argv) > 1 else ""
 rows = []
 for name in sorted(os.listdir(os.path.join(ROOT, "seeded"))):
     d = os.path.join(ROOT, "seeded", name)
-    if not os.path.isdir(d) or not name.startswith(pre): continue
+    if not os.path.isdir(d) or pre not in name: continue          # (substring filter: "C08", "-r3", ...)
     meta = json.load(open(os.path.join(d, "meta.json")))
     reset()
     r = sh("git", "-C", WT, "apply", os.path.join(d, "patch.diff"))
